@@ -108,11 +108,22 @@ def run_case(case):
                 c.node.fragmentation = False
             if n.get("mc_level") is not None:
                 c.node.multicast_level = n["mc_level"]  # listening for another level's multicasts must not change routing
+            if n.get("cycled"):
+                c.node.power = False  # the node slept once and was woken again: it is a running node like any other
+                c.node.power = True
         net.start()
         net.sim.advance(3 * MS)
         L = net.L
         for m in case["msgs"]:
             msg = bytes.fromhex(m["msg"])
+            b = m.get("before")
+            if b:
+                # history, not judged: some node wrote to an address nobody holds (a write that is allowed to fail) and the
+                # network came to rest again; the message that follows is still the only one in flight
+                net.call(b["who"], lambda node, b=b: node.write(L.Frame(L.Header(b["dst"], b["type"]), b"zz")), timeout_ms=30000)
+                net.settle(4000)
+                if not case.get("hold"):
+                    net.drain_queues()
             n0 = len(net.med.log)
 
             def do(node, m=m, msg=msg):
@@ -218,6 +229,10 @@ def run_case(case):
                 m["src"], m["dst"], k, f[0], f[3], len(f[5])))
         if ret is not True and good:
             res.fail("C05/" + crossing + "write-false-but-delivered/" + cls, "%o -> %o delivered, write() returned %r" % (m["src"], m["dst"], ret))
+    if any(m.get("before") for m in case["msgs"]):
+        res.label("after-a-failed-write-somewhere")
+    if any(n.get("cycled") for n in case["nodes"]):
+        res.label("power-cycled-nodes")
     res.label("frag-on" if frag_on else "frag-off", "nodes%d" % len(case["nodes"]))
     if case.get("hold"):
         res.label("queues-read-at-the-end")
@@ -265,6 +280,11 @@ def _strategy():
                 if draw(st.booleans()):
                     was = draw(st.sampled_from([0, 0o1, 0o3, 0o5, 0o15, 0o21, 0o125, 0o3125, 0o4444, n["addr"]]))
                     n["was"] = was
+        if draw(st.integers(0, 3)) == 0:
+            for n in nodes:
+                if draw(st.booleans()):
+                    n["cycled"] = True
+        absent = [a for a in netaddr.all_nodes() if a not in pop]
         msgs = []
         for _ in range(draw(st.integers(1, 4))):
             s = draw(st.sampled_from(full))
@@ -274,6 +294,12 @@ def _strategy():
             msgs.append({"src": s, "dst": d, "type": draw(st.one_of(st.integers(0, 127), st.sampled_from([0, 64, 65, 127]))),
                          "msg": draw(st.binary(min_size=n, max_size=n)).hex(),
                          "id": draw(st.one_of(st.none(), st.integers(0, 0xFFFF))), "via": draw(st.sampled_from(["write", "send"]))})
+            if draw(st.integers(0, 3)) == 0:
+                who = draw(st.sampled_from([s] + netaddr.tree_path(s, d)))
+                kids = [a for a in absent if netaddr.parent(a) == who]
+                if [n for n in nodes if n["addr"] == who][0]["kind"] == "net":
+                    msgs[-1]["before"] = {"who": who, "dst": draw(st.sampled_from(kids)) if kids and draw(st.booleans()) else draw(st.sampled_from(absent)),
+                                          "type": draw(st.sampled_from([0, 65, 100]))}
         c = {"nodes": nodes, "frag": frag, "msgs": msgs}
         if len(msgs) >= 2 and draw(st.integers(0, 2)) == 0:
             # unread queues: ids as devices that all count from the same start would produce them (collisions between
